@@ -321,7 +321,7 @@ impl Real {
 
 // ------------------------------------------------------------------ generators
 
-const TOKENS: [&str; 9] = ["a", "b", "", "0", "1", "a~1b", "m~0n", "x", "2"];
+const TOKENS: [&str; 11] = ["a", "b", "", "0", "1", "a~1b", "m~0n", "x", "2", "reg", "reg"];
 
 fn gen_pointer(small: bool) -> String {
     if small {
